@@ -244,3 +244,243 @@ func c04CliGen(c *gen.Ctx) {
 	}
 	c.DoParallel("runcli", ins, 8)
 }
+
+// ---- op "cliargs": the command line's own decisions (cmd/connectconformance/main.go run()):
+// which invocations are refused and with which message, how the positional arguments are split
+// into client and server command.  No peer is ever started: every command name used does not
+// exist (or only the client's does), so an invocation that passes validation ends in the look-up
+// of the first command name that does not exist, which names it.
+//
+// in  = {mode?, version, command, maxServers?, port?, parallel?, bind?, cert?, key?}; a flag is
+//       given on the command line iff its field is present; cert/key: "" | "missing" | "present"
+// impl = {exit, class}: class is the refusal (by its fixed message), "version", "lookpath:<name>",
+//       "open:<cert|key>", or "other: <text>"
+
+type c04ArgsIn struct {
+	Mode       *string  `json:"mode,omitempty"`
+	Version    bool     `json:"version,omitempty"`
+	Command    []string `json:"command"`
+	MaxServers *int     `json:"maxServers,omitempty"`
+	Port       *int     `json:"port,omitempty"`
+	Parallel   *int     `json:"parallel,omitempty"`
+	Bind       *string  `json:"bind,omitempty"`
+	Cert       *string  `json:"cert,omitempty"`
+	Key        *string  `json:"key,omitempty"`
+}
+
+type c04ArgsOut struct {
+	Exit  int    `json:"exit"`
+	Class string `json:"class"`
+}
+
+var c04ArgsMsgs = []struct {
+	re    *regexp.Regexp
+	class string
+}{
+	{regexp.MustCompile(`^Positional arguments are required`), "noCommand"},
+	{regexp.MustCompile(`^Invalid max servers: must be greater than zero`), "maxServersZero"},
+	{regexp.MustCompile(`^Invalid max servers: cannot be greater than one when non-zero --port`), "maxServersWithPort"},
+	{regexp.MustCompile(`^Invalid parallelism: must be greater than zero`), "parallelZero"},
+	{regexp.MustCompile(`^Command is missing "----" separator`), "noSeparator"},
+	{regexp.MustCompile(`^Client command \(before the "----"\) is empty`), "emptyClient"},
+	{regexp.MustCompile(`^Server command \(after the "----"\) is empty`), "emptyServer"},
+	{regexp.MustCompile(`^Invalid mode: expecting "client", "server", or "both"`), "badMode"},
+	{regexp.MustCompile(`^Cannot specify --cert flag when mode is `), "certNotClient"},
+	{regexp.MustCompile(`^Cannot specify --key flag when mode is `), "keyNotClient"},
+	{regexp.MustCompile(`^Cannot specify --port flag when mode is `), "portNotClient"},
+	{regexp.MustCompile(`^Cannot specify --bind flag when mode is `), "bindNotClient"},
+	{regexp.MustCompile(`^Cannot specify --parallel/-p flag when mode is `), "parallelNotServer"},
+	{regexp.MustCompile(`^Missing TLS key: `), "missingKey"},
+	{regexp.MustCompile(`^Missing TLS certificate: `), "missingCert"},
+}
+
+func init() {
+	gen.RegisterOp("c04", "cliargs", func(c *gen.Ctx, raw json.RawMessage) any {
+		return c04CliArgs(c, gen.Into[c04ArgsIn](raw))
+	})
+}
+
+func c04CliArgs(c *gen.Ctx, in c04ArgsIn) c04ArgsOut {
+	if c.BinDir == "" {
+		return c04ArgsOut{Exit: -1, Class: "no-binary"}
+	}
+	dir := filepath.Join(c.WorkDir, fmt.Sprintf("c04args-%d-%d", os.Getpid(), c04RunSeq.Add(1)))
+	if err := os.MkdirAll(dir, 0o755); err != nil {
+		panic(err)
+	}
+	defer os.RemoveAll(dir)
+	file := func(kind string, v *string) (string, bool) {
+		if v == nil {
+			return "", false
+		}
+		switch *v {
+		case "":
+			return "", true
+		case "present":
+			p := filepath.Join(dir, kind+".pem")
+			_ = os.WriteFile(p, []byte("x"), 0o600)
+			return p, true
+		default:
+			return filepath.Join(dir, "no-such-"+kind+".pem"), true
+		}
+	}
+	var args []string
+	if in.Mode != nil {
+		args = append(args, "--mode", *in.Mode)
+	}
+	if in.Version {
+		args = append(args, "--version")
+	}
+	if in.MaxServers != nil {
+		args = append(args, "--max-servers", strconv.Itoa(*in.MaxServers))
+	}
+	if in.Port != nil {
+		args = append(args, "--port", strconv.Itoa(*in.Port))
+	}
+	if in.Parallel != nil {
+		args = append(args, "--parallel", strconv.Itoa(*in.Parallel))
+	}
+	if in.Bind != nil {
+		args = append(args, "--bind", *in.Bind)
+	}
+	if p, ok := file("cert", in.Cert); ok {
+		args = append(args, "--cert", p)
+	}
+	if p, ok := file("key", in.Key); ok {
+		args = append(args, "--key", p)
+	}
+	args = append(args, "--")
+	args = append(args, in.Command...)
+	cmd := exec.Command(filepath.Join(c.BinDir, "connectconformance"), args...)
+	var stdout, stderr bytes.Buffer
+	cmd.Stdout, cmd.Stderr = &stdout, &stderr
+	cmd.Stdin = nil
+	cmd.Dir = dir
+	done := make(chan error, 1)
+	if err := cmd.Start(); err != nil {
+		return c04ArgsOut{Exit: -2, Class: "start: " + err.Error()}
+	}
+	go func() { done <- cmd.Wait() }()
+	var werr error
+	select {
+	case werr = <-done:
+	case <-time.After(60 * time.Second):
+		_ = cmd.Process.Kill()
+		<-done
+		return c04ArgsOut{Exit: -3, Class: "other: did not end within 60 s"}
+	}
+	out := c04ArgsOut{}
+	if ee, ok := werr.(*exec.ExitError); ok {
+		out.Exit = ee.ExitCode()
+	} else if werr != nil {
+		out.Exit = -2
+	}
+	msg := strings.TrimSpace(stderr.String())
+	switch {
+	case out.Exit == 0 && regexp.MustCompile(`^connectconformance \S+\n?$`).MatchString(stdout.String()) && msg == "":
+		out.Class = "version"
+	case out.Exit == 1:
+		out.Class = "other: " + c04Tail(msg, 200)
+		for _, m := range c04ArgsMsgs {
+			if m.re.MatchString(msg) {
+				out.Class = m.class
+			}
+		}
+		if strings.Contains(msg, "executable file not found") || strings.Contains(msg, "no such file or directory") {
+			for _, name := range in.Command {
+				if name != "/bin/true" && strings.Contains(msg, `"`+name+`"`) && !strings.Contains(msg, ".pem") {
+					out.Class = "lookpath:" + name
+					break
+				}
+			}
+			if strings.Contains(msg, "no-such-cert.pem") {
+				out.Class = "open:cert"
+			} else if strings.Contains(msg, "no-such-key.pem") {
+				out.Class = "open:key"
+			}
+		}
+	default:
+		out.Class = fmt.Sprintf("other: exit %d: %s", out.Exit, c04Tail(msg, 200))
+	}
+	return out
+}
+
+// c04ArgsGen: bounded-exhaustive over the decision inputs of run() (mode x each flag absent / zero
+// / small / large x command shapes around the separator), then random combinations.
+func c04ArgsGen(c *gen.Ctx) {
+	if c.BinDir == "" {
+		return
+	}
+	r := c.R.Fork()
+	ip := func(v int) *int { return &v }
+	sp := func(v string) *string { return &v }
+	modes := []*string{sp("client"), sp("server"), sp("both"), sp("Both"), sp(""), nil, sp("clients")}
+	commands := [][]string{
+		{}, {"nx-a"}, {"nx-a", "arg"}, {"----"}, {"nx-a", "----"}, {"----", "nx-b"}, {"nx-a", "----", "nx-b"},
+		{"nx-a", "x", "----", "nx-b", "y"}, {"nx-a", "----", "nx-b", "----", "nx-c"}, {"nx-a", "----", "----", "nx-b"},
+		{"/bin/true", "----", "nx-b"}, {"/bin/true", "x", "----", "nx-b", "----"}, {"nx-a", "---"}, {"nx-a", "-----", "nx-b"},
+	}
+	var ins []any
+	add := func(in c04ArgsIn) {
+		// never an invocation that would really start a peer: in modes client / server the command
+		// name must not exist
+		if in.Mode != nil && (*in.Mode == "client" || *in.Mode == "server") && len(in.Command) > 0 && in.Command[0] == "/bin/true" {
+			return
+		}
+		ins = append(ins, in)
+		c.E.Count("cliargs")
+	}
+	// (i) mode x command shape, no other flag
+	for _, m := range modes {
+		for _, cmd := range commands {
+			add(c04ArgsIn{Mode: m, Command: cmd})
+		}
+	}
+	// (ii) every single flag in every mode, with the values around its decision points
+	base := [][]string{{"nx-a"}, {"nx-a", "----", "nx-b"}}
+	for mi, m := range modes[:3] {
+		cmd := base[0]
+		if mi == 2 {
+			cmd = base[1]
+		}
+		for _, v := range []int{0, 1, 2, 7} {
+			add(c04ArgsIn{Mode: m, Command: cmd, MaxServers: ip(v)})
+			add(c04ArgsIn{Mode: m, Command: cmd, Parallel: ip(v)})
+			add(c04ArgsIn{Mode: m, Command: cmd, Port: ip(v * 4321)})
+			for _, ms := range []int{0, 1, 2} {
+				add(c04ArgsIn{Mode: m, Command: cmd, Port: ip(v * 4321), MaxServers: ip(ms)})
+			}
+		}
+		add(c04ArgsIn{Mode: m, Command: cmd, Bind: sp("127.0.0.1")})
+		for _, cert := range []*string{nil, sp(""), sp("missing"), sp("present")} {
+			for _, key := range []*string{nil, sp(""), sp("missing"), sp("present")} {
+				add(c04ArgsIn{Mode: m, Command: cmd, Cert: cert, Key: key})
+			}
+		}
+		add(c04ArgsIn{Mode: m, Command: cmd, Version: true})
+	}
+	add(c04ArgsIn{Version: true, Command: []string{}})
+	// (iii) random combinations: the order of the checks decides which refusal is reported
+	n := 150
+	if c.Thorough() {
+		n = 3000
+	}
+	optInt := func(vals []int) *int {
+		if r.Chance(1, 2) {
+			return nil
+		}
+		return ip(gen.Pick(r, vals))
+	}
+	optStr := func(vals []string) *string {
+		if r.Chance(3, 5) {
+			return nil
+		}
+		return sp(gen.Pick(r, vals))
+	}
+	for i := 0; i < n; i++ {
+		add(c04ArgsIn{Mode: gen.Pick(r, modes), Command: gen.Pick(r, commands), Version: r.Chance(1, 25),
+			MaxServers: optInt([]int{0, 1, 2, 4}), Port: optInt([]int{0, 0, 8080}), Parallel: optInt([]int{0, 1, 8}),
+			Bind: optStr([]string{"127.0.0.1", "0.0.0.0"}), Cert: optStr([]string{"", "missing", "present"}), Key: optStr([]string{"", "missing", "present"})})
+	}
+	c.DoParallel("cliargs", ins, 16)
+}
